@@ -286,6 +286,27 @@ REG.add(Contract(
     raises={'AssertionError': Raises('self.i - j < 0', kind='P', props=C20,
                                      ensures=[A('cursor-kept', 'self.i == old(self.i)')] + KEEP)}))
 
+def slice_head_lemma(sign):
+    """sequence-theory instance (both solvers are erratic on it): the first element of a non-empty in-range slice
+    Q[lo:hi] is Q[lo], and the slice has hi - lo elements"""
+    def hook(eng, st, b, pre):
+        from pyvc.sorts import pyslice as _ps, zmin as _mn, zmax as _mx
+        buf, j = b.get('self'), b.get('j')
+        if buf is None or j is None or buf.ty != 'obj' or j.ty != 'int':
+            return
+        Q = st.heap[buf.a['ref']]['Q'].z
+        i0 = pre.heap[buf.a['ref']]['i'].z
+        a, c = i0, i0 + sign * j.z
+        lo, hi = _mn(a, c), _mx(a, c)
+        sl_ = _ps(Q, lo, hi)
+        st.fact(Implies(And(0 <= lo, lo < hi, hi <= Length(Q)), And(sl_[0] == Q[lo], Length(sl_) == hi - lo)))
+        eng.touch(st, lo)
+    return hook
+
+
+REG.contracts['utils.Buffer.forward'][0].hooks.append(slice_head_lemma(1))
+REG.contracts['utils.Buffer.backward'][0].hooks.append(slice_head_lemma(-1))
+
 REG.add(Contract(
     'utils.Buffer.startswith', types={'self': 'Buffer', 's': 'str'}, result='bool',
     requires=BUF_INV, modifies=['self.m'],
